@@ -24,7 +24,7 @@ class C03(rt.RoundTrip):
 
         if self.tier == "thorough":
             full = self.all_options((2, 0, 1))
-            full = full + [dict(o, septab=True) for o in self.all_options((2,))]
+            full = full + [dict(o, septab=True) for o in self.all_options((2,))] + [dict(o, pinfer=True) for o in self.all_options((2,))[:4]]
             return core.Concat(rt.OptSpace(al.ir_space(self.tier), full),
                                rt.OptSpace(al.S_B((2,)), [dict(o, ftnone=True) for o in self.all_options((2,))]))
         full = self.all_options((2,))
@@ -38,7 +38,7 @@ class C03(rt.RoundTrip):
         # function_type=None) for each function type
         qn = [dict(o, ftnone=True) for o in qb]
         # one deviation from the default emitter options: emit_separating_tab
-        qa = qa + [dict(o, septab=True) for o in qa[:2]]
+        qa = qa + [dict(o, septab=True) for o in qa[:2]] + [dict(qa[1], pinfer=True)]
         qb = qb + [dict(qb[1], septab=True)]
         return core.Concat(rt.OptSpace(al.S_A(), qa), rt.OptSpace(al.S_B(), qb), rt.OptSpace(al.S_D(), full),
                            rt.OptSpace(al.S_B((2,)), qn), rt.OptSpace(al.S_W(), full))
